@@ -314,3 +314,4 @@ def run(ctx, rep):
     r08d(ctx, rep)
     import c07
     c07.r07g(ctx, rep, ctx.crate('tensor_store'))   # rollback copies the image back through restore_from_bytes: every key class must come back
+    c07.r07h(ctx, rep, ctx.crate('tensor_store'))   # the checkpoint image is built from the slabs' snapshot()s
